@@ -538,9 +538,21 @@ class TLSRecordLayer(object):
                 if self.closeSocket:
                     self._shutdown(True)
                 else:
+                    if self.version > (3, 3):
+                        # the server may still have NewSessionTicket or
+                        # KeyUpdate messages in flight; skip them
+                        close_types = (ContentType.alert,
+                                       ContentType.application_data,
+                                       ContentType.handshake)
+                        close_hs_types = (HandshakeType.new_session_ticket,
+                                          HandshakeType.key_update)
+                    else:
+                        close_types = (ContentType.alert,
+                                       ContentType.application_data)
+                        close_hs_types = None
                     while not alert:
-                        for result in self._getMsg((ContentType.alert, \
-                                                  ContentType.application_data)):
+                        for result in self._getMsg(close_types,
+                                                   close_hs_types):
                             if result in (0,1):
                                 yield result
                         if result.contentType == ContentType.alert:
